@@ -2,6 +2,7 @@ import Pymc.Proofs.PooledRun
 import Pymc.Proofs.PooledCallExamples
 import Pymc.Proofs.HashPooledCallExamples
 import Pymc.Proofs.HashPooledCallManyExamples
+import Pymc.Proofs.PoolConcTimedReuse
 /-!
 # C09 — sequential use of the connection pool by `PooledClient`
 
@@ -904,3 +905,317 @@ example :
   rfl
 
 end HashPooledCall
+
+
+/-!
+# C09 for OVERLAPPING callers — the timed micro-step model of `ObjectPool` (`Pymc/Model/PoolConcTimed.lean`)
+
+The clause "a healthy connection is reused rather than reopened until it has been idle longer than
+pool_idle_timeout" for callers that overlap in time.  `PoolConcT` is C08's interleaving model `PoolConc` (threads,
+a lock, one micro-step per point of pool.py at which another thread can run) with a clock that the environment
+may advance between any two micro-steps, the per-object stamps `_last_used`, written by micro-steps of their own
+exactly where pool.py writes them (in `get` after `self._used_objs.append(obj)`, in `release` after
+`self._free_objs.append(obj)`, both inside the `with self._lock`), the read `now = self._idle_clock()` at the start
+of `get`'s lock hold, and the idle test decided by `now - obj._last_used <= idle_timeout`.
+
+Reading the statements.  `runT false (initT programs maxSize idleTimeout) ls = some s`: `s` is reached from the
+empty pool by the run `ls` (a list of `tick d | run t | runCreateFail t`) — ANY number of threads, ANY programs,
+ANY interleaving, ANY advance of the clock; `false` selects pool.py, `true` the variant `releaseStampOutsideLock`.
+`FreeSince false s0 ls o t0 good`: the run `ls` contains the micro-step `self._free_objs.append(o)` of a `release`,
+taken when the clock showed `t0`, and `good` holds in every later state of the run.
+`(s.base.th t).pc = .getTest o f`: thread `t` is inside `get`, has popped `o` from `_free_objs` and executes the
+idle test next, with its local `now = s.now t` against the stamp `s.lastUsed o`.
+
+The invariants are `PoolConcT.InvT` (`Pymc/Proofs/PoolConcTimedInv.lean`: C08's `Inv` on the underlying state; a
+thread owes a clock/stamp statement only inside the lock hold it belongs to; `now` and the stamps are not ahead
+of the clock) and `PoolConcT.HistInv` (`Pymc/Proofs/PoolConcTimedHist.lean`: every object in `_free_objs`, or under
+test, has been there since an `append` of `release`, and — because the `append` and the stamp happen in ONE lock
+hold — carries a stamp that is not older than that `append`, or the releasing thread still owns the lock).
+-/
+namespace PoolConcT
+open PoolConc
+
+variable {programs : List Program} {maxSize idleTimeout : Nat}
+
+/-- C09, overlapping callers (c): refinement, one micro-step.  A micro-step of the timed model (pool.py or the
+variant) either leaves the `PoolConc` state alone (clock tick, `now = …`, a stamp) or is a micro-step of `PoolConc`
+on it, and at the idle test the label is the answer the clock and the stamps give. -/
+theorem C09_conc_step_refines {outside : Bool} {s s' : TState} {l : TLabel} (h : stepT outside s l = some s') :
+    s'.base = s.base ∨ ∃ t lb, step s.base t lb = some s'.base ∧
+      ∀ o f, (s.base.th t).pc = .getTest o f →
+        (lb = .expired ↔ s.idleTimeout < s.now t - s.lastUsed o) ∧ (lb = .fresh ↔ s.now t - s.lastUsed o ≤ s.idleTimeout) := by
+  cases stepRel_of_stepT h with
+  | tick d => exact Or.inl rfl
+  | base t lb b l hl _ hb =>
+    refine Or.inr ⟨t, lb, hb, fun o f hpc => ?_⟩
+    rcases hl with ⟨_, rfl⟩ | ⟨_, rfl⟩
+    · simp only [labelOf, hpc, idleAnswer]
+      by_cases hc : s.now t - s.lastUsed o ≤ s.idleTimeout
+      · simp [hc]
+      · simp [hc]; omega
+    · obtain ⟨f', hf'⟩ := createFail_pc hb
+      rw [hpc] at hf'; cases hf'
+  | readNow t _ => exact Or.inl rfl
+  | stampGet t o _ => exact Or.inl rfl
+  | stampRel t o _ _ => exact Or.inl rfl
+  | leaveFirst t o b _ _ hpc hb =>
+    refine Or.inr ⟨t, .tau, hb, fun o' f h' => ?_⟩
+    rw [hpc] at h'; cases h'
+
+/-- C09, overlapping callers (c): refinement, runs.  Forgetting the clock and the stamps, every run of the timed
+model is a run of C08's model `PoolConc` (schedule `projSched`: the same thread steps, the idle answers computed from
+clock and stamps); so its state is `PoolConc.Reachable`, satisfies C08's invariant `PoolConc.Inv`, and every C08
+theorem (`C08_mutex`, `C08_held_by_at_most_one`, `C08_no_duplicates_and_capacity`, `C08_no_internal_error`,
+`C08_closed_at_most_once`, …) holds of `s.base`. -/
+theorem C09_conc_refines_untimed (outside : Bool) (ls : List TLabel) (s : TState)
+    (h : runT outside (initT programs maxSize idleTimeout) ls = some s) :
+    run (init programs maxSize) (projSched outside (initT programs maxSize idleTimeout) ls) = some s.base ∧
+    Reachable programs maxSize s.base ∧ Inv s.base :=
+  ⟨run_refines outside _ _ ls h, base_reachable h, inv_reachable (base_reachable h)⟩
+
+/-- non-vacuity of the refinement theorems: a timed run with two overlapping callers; thread 0 hands its connection
+back at time 0, thread 1 at time 10 (timeout 5); thread 0's next `get` (`now = 10`) closes connection 0 (idle test
+fails) and takes connection 1.  Its `PoolConc` schedule contains the answer `expired` exactly once; C08's invariant
+applies to its end state (here: the connection thread 0 holds is held by nobody else). -/
+example : (projSched false (initT [[.useOk, .useOk], [.useOk]] 2 5)
+      (runs 0 9 ++ runs 1 9 ++ runs 0 5 ++ [.tick 10] ++ runs 1 5 ++ runs 0 8)).count (0, .expired) = 1 ∧
+    ∃ s, runT false (initT [[.useOk, .useOk], [.useOk]] 2 5)
+        (runs 0 9 ++ runs 1 9 ++ runs 0 5 ++ [.tick 10] ++ runs 1 5 ++ runs 0 8) = some s ∧
+      (s.base.th 0).pc.holds = some 1 ∧ s.base.closedCnt 0 = 1 ∧ ∀ u, (s.base.th u).pc.holds = some 1 → u = 0 := by
+  refine ⟨by decide, ?_⟩
+  obtain ⟨s, hr, hp⟩ := runCheckT_run (outside := false) (s0 := initT [[.useOk, .useOk], [.useOk]] 2 5)
+    (ls := runs 0 9 ++ runs 1 9 ++ runs 0 5 ++ [.tick 10] ++ runs 1 5 ++ runs 0 8)
+    (p := fun s => decide ((s.base.th 0).pc.holds = some 1) && decide (s.base.closedCnt 0 = 1)) (by decide)
+  simp only [Bool.and_eq_true, decide_eq_true_eq] at hp
+  exact ⟨s, hr, hp.1, hp.2, fun u hu => (C09_conc_refines_untimed false _ s hr).2.2.holdExcl u 0 1 hu hp.1⟩
+
+/-- C09, overlapping callers (a).  Whenever `get` is about to close a pooled object as idled-out — thread `t` is at
+the idle test of `o` and `now - o._last_used > idle_timeout` — then: the next micro-step of `t` does close it
+(`after_remove`, once) and goes on with the loop; and `o` has been in `_free_objs` without interruption (until this
+very `get` popped it) since an `append` of `release` executed when the clock showed `t0`, with
+`now - t0 > idle_timeout`, where `now`, read at the start of this `get`'s lock hold, is not ahead of the clock.
+For every program set, every interleaving and every advance of the clock. -/
+theorem C09_conc_expired_only_if_idle_long {ls : List TLabel} {s : TState} {t : Tid} {o : Obj} {f : Fin}
+    (hr : runT false (initT programs maxSize idleTimeout) ls = some s)
+    (hpc : (s.base.th t).pc = .getTest o f) (hexp : idleTimeout < s.now t - s.lastUsed o) :
+    (∃ s', stepT false s (.run t) = some s' ∧ (s'.base.th t).pc = .getLoop f ∧
+      s'.base.closedCnt o = s.base.closedCnt o + 1) ∧
+    ∃ t0, FreeSince false (initT programs maxSize idleTimeout) ls o t0
+            (fun s1 => o ∈ s1.base.free ∨ (s1.base.th t).pc = .getTest o f) ∧
+      idleTimeout < s.now t - t0 ∧ s.now t ≤ s.clock := by
+  obtain ⟨hI, hH⟩ := hist_run programs maxSize idleTimeout ls s hr
+  have hto : s.idleTimeout = idleTimeout := idleTimeout_run hr
+  have hp : s.pend t = .none := by
+    have := hI.pendOk t
+    unfold PendOk at this
+    split at this
+    · next e => exact e
+    · obtain ⟨f', e⟩ := this; rw [hpc] at e; cases e
+    · obtain ⟨f', e⟩ := this; rw [hpc] at e; cases e
+    · rw [hpc] at this; cases this
+  obtain ⟨s', h1, h2, h3, _⟩ := (getTest_stepT (outside := false) hpc hp).1 (by rw [hto]; exact hexp)
+  obtain ⟨t0, hfs, hle⟩ := hH.test t o f hpc
+  exact ⟨⟨s', h1, h2, h3⟩, t0, hfs, by omega, hI.nowLe t⟩
+
+/-- non-vacuity of `C09_conc_expired_only_if_idle_long`: one caller uses a connection, hands it back at time 0; the
+clock advances by 10 (timeout 5); the next `get` pops it and is about to close it: the hypotheses hold. -/
+example : ∃ ls s, runT false (initT [[.useOk, .useOk]] 1 5) ls = some s ∧ (s.base.th 0).pc = .getTest 0 .rel ∧
+    5 < s.now 0 - s.lastUsed 0 := by
+  obtain ⟨s, hr, hp⟩ := runCheckT_run (outside := false) (s0 := initT [[.useOk, .useOk]] 1 5)
+    (ls := runs 0 14 ++ [.tick 10] ++ runs 0 4)
+    (p := fun s => decide ((s.base.th 0).pc = .getTest 0 .rel) && decide (5 < s.now 0 - s.lastUsed 0)) (by decide)
+  simp only [Bool.and_eq_true, decide_eq_true_eq] at hp
+  exact ⟨_, s, hr, hp.1, hp.2⟩
+
+/-- C09, overlapping callers (a), the other direction.  An object that has been in `_free_objs` since an `append`
+of `release` executed less than `idle_timeout` before the `now` of the `get` that tests it passes the idle test: the
+next micro-step of `t` keeps it (moves it to `_used_objs`, closes nothing).  So an object given back less than
+`idle_timeout` ago is never closed by the idle test. -/
+theorem C09_conc_recently_freed_not_expired {ls : List TLabel} {s : TState} {t : Tid} {o : Obj} {f : Fin} {t0 : Nat}
+    (hr : runT false (initT programs maxSize idleTimeout) ls = some s)
+    (hpc : (s.base.th t).pc = .getTest o f)
+    (hfs : FreeSince false (initT programs maxSize idleTimeout) ls o t0
+            (fun s1 => o ∈ s1.base.free ∨ (s1.base.th t).pc = .getTest o f))
+    (hrecent : s.now t - t0 ≤ idleTimeout) :
+    s.now t - s.lastUsed o ≤ idleTimeout ∧
+    ∃ s', stepT false s (.run t) = some s' ∧ (s'.base.th t).pc = .getRel o f ∧
+      s'.base.closedCnt = s.base.closedCnt ∧ s'.base.used = s.base.used ++ [o] := by
+  obtain ⟨hI, hH⟩ := hist_run programs maxSize idleTimeout ls s hr
+  have hto : s.idleTimeout = idleTimeout := idleTimeout_run hr
+  have hp : s.pend t = .none := by
+    have := hI.pendOk t
+    unfold PendOk at this
+    split at this
+    · next e => exact e
+    · obtain ⟨f', e⟩ := this; rw [hpc] at e; cases e
+    · obtain ⟨f', e⟩ := this; rw [hpc] at e; cases e
+    · rw [hpc] at this; cases this
+  obtain ⟨t1, hfs1, hle⟩ := hH.test t o f hpc
+  have : t0 = t1 := FreeSince.unique (fun s1 u h1 h2 => not_good_at_relAppend h1 h2)
+    (fun s1 u h1 h2 => not_good_at_relAppend h1 h2) hfs hfs1
+  subst this
+  have hfresh : s.now t - s.lastUsed o ≤ idleTimeout := by omega
+  obtain ⟨s', h1, h2, h3, h4, _⟩ := (getTest_stepT (outside := false) hpc hp).2 (by rw [hto]; exact hfresh)
+  exact ⟨hfresh, s', h1, h2, h3, h4⟩
+
+/-- non-vacuity of `C09_conc_recently_freed_not_expired`: thread 0 hands connection 0 back at time 10 (its call lasted
+10 > timeout 5: the stamp written at checkout is old) while thread 1 waits for the lock; thread 1 then pops it at
+`now = 10`: all hypotheses hold, with `t0 = 10`. -/
+example : ∃ ls s, runT false (initT [[.useOk], [.useOk]] 2 5) ls = some s ∧ (s.base.th 1).pc = .getTest 0 .rel ∧
+    FreeSince false (initT [[.useOk], [.useOk]] 2 5) ls 0 10
+      (fun s1 => 0 ∈ s1.base.free ∨ (s1.base.th 1).pc = .getTest 0 .rel) ∧ s.now 1 - 10 ≤ 5 := by
+  obtain ⟨sa, hsa, hpa⟩ := runCheckT_run (outside := false) (s0 := initT [[.useOk], [.useOk]] 2 5)
+    (ls := runs 0 9 ++ [.tick 10] ++ runs 0 2)
+    (p := fun sa => decide ((sa.base.th 0).pc = .relAppend 0) && decide (sa.pend 0 = .none) && decide (sa.clock = 10) &&
+      (match stepT false sa (.run 0) with
+       | some sb => checkAlong false sb (fun s1 => decide (0 ∈ s1.base.free) || decide ((s1.base.th 1).pc = .getTest 0 .rel))
+                      (runs 0 2 ++ runs 1 4)
+       | none => false)) (by decide)
+  simp only [Bool.and_eq_true, decide_eq_true_eq] at hpa
+  obtain ⟨⟨⟨h1, h2⟩, h3⟩, h4⟩ := hpa
+  cases hsb : stepT false sa (.run 0) with
+  | none => simp [hsb] at h4
+  | some sb =>
+    simp only [hsb] at h4
+    have hfs := freeSince_of_check hsa h1 h2 hsb h4
+    obtain ⟨s, hr, hp⟩ := runCheckT_run (outside := false) (s0 := initT [[.useOk], [.useOk]] 2 5)
+      (ls := (runs 0 9 ++ [.tick 10] ++ runs 0 2) ++ .run 0 :: (runs 0 2 ++ runs 1 4))
+      (p := fun s => decide ((s.base.th 1).pc = .getTest 0 .rel) && decide (s.now 1 - 10 ≤ 5)) (by decide)
+    simp only [Bool.and_eq_true, decide_eq_true_eq] at hp
+    refine ⟨_, s, hr, hp.1, ?_, hp.2⟩
+    rw [h3] at hfs
+    exact hfs.mono (fun s1 h => by simpa using h)
+
+/-- C09, overlapping callers (b).  If, when thread `t` has read `now` at the start of `get` and is at the head of the
+loop `while self._free_objs`, some object `o` is in `_free_objs` and has been there since an `append` executed at
+`t0` with `now - t0 <= idle_timeout`, then during the whole rest of that lock hold (`HeldThrough`: every state of the
+continuation `post` has `t` as the owner of the lock) no object is created — `obj_creator` is not called, `t` never
+reaches the `else` branch of the loop — and the object `get` takes is one that was in `_free_objs`. -/
+theorem C09_conc_fresh_idle_is_reused {ls0 post : List TLabel} {s0 s : TState} {t : Tid} {o : Obj} {f : Fin} {t0 : Nat}
+    (h0 : runT false (initT programs maxSize idleTimeout) ls0 = some s0)
+    (hpc : (s0.base.th t).pc = .getLoop f) (hp : s0.pend t = .none)
+    (ho : o ∈ s0.base.free)
+    (hfs : FreeSince false (initT programs maxSize idleTimeout) ls0 o t0 (fun s1 => o ∈ s1.base.free))
+    (hfresh : s0.now t - t0 ≤ idleTimeout)
+    (hr : runT false s0 post = some s) (hheld : HeldThrough t s0 post) :
+    s.base.created = s0.base.created ∧
+    (∀ f', (s.base.th t).pc ≠ .getCount f' ∧ (s.base.th t).pc ≠ .getCreate f') ∧
+    (∀ o' f', (s.base.th t).pc = .getRel o' f' → o' ∈ s0.base.free) := by
+  obtain ⟨hI, hH⟩ := hist_run programs maxSize idleTimeout ls0 s0 h0
+  have hto : s0.idleTimeout = idleTimeout := idleTimeout_run h0
+  obtain ⟨t1, hfs1, _, hor⟩ := hH.free o ho
+  have hbad : ∀ s1 u, InvT s1 → (s1.base.th u).pc = .relAppend o → ¬ (o ∈ s1.base.free) := by
+    intro s1 u h1 h2 h3
+    exact not_good_at_relAppend (t := u) (f := .rel) h1 h2 (Or.inl h3)
+  have : t0 = t1 := FreeSince.unique hbad hbad hfs hfs1
+  subst this
+  have hlock : s0.base.lock = some t := (hI.base.mutex t).mp (by rw [hpc]; rfl)
+  have hstamp : t0 ≤ s0.lastUsed o := by
+    rcases hor with h1 | ⟨u, hu⟩
+    · exact h1
+    · exfalso
+      have := pendOk_lock hI u (by rw [hu]; simp)
+      rw [hlock] at this
+      cases this
+      rw [hp] at hu; cases hu
+  have hg := getLoopInvT_run hI hpc hp ho (by rw [hto]; omega) hr hheld
+  obtain ⟨⟨hc, _, h3⟩, _, _⟩ := hg
+  refine ⟨hc, fun f' => ?_, fun o' f' hrel => ?_⟩
+  · constructor <;> intro e <;> rw [e] at h3 <;> simp at h3
+  · rw [hrel] at h3
+    simp at h3
+    obtain ⟨w, ⟨rfl, _⟩, h5⟩ := h3
+    exact h5
+
+/-- non-vacuity of `C09_conc_fresh_idle_is_reused`: a caller hands connection 0 back at time 0, the clock advances by
+3 (timeout 5), the next `get` has read `now = 3`: all hypotheses hold for the continuation up to the end of the
+loop, where that `get` has taken connection 0 (and created nothing). -/
+example : ∃ ls0 s0 post s, runT false (initT [[.useOk, .useOk]] 1 5) ls0 = some s0 ∧
+    (s0.base.th 0).pc = .getLoop .rel ∧ s0.pend 0 = .none ∧ 0 ∈ s0.base.free ∧
+    FreeSince false (initT [[.useOk, .useOk]] 1 5) ls0 0 0 (fun s1 => 0 ∈ s1.base.free) ∧ s0.now 0 - 0 ≤ 5 ∧
+    runT false s0 post = some s ∧ HeldThrough 0 s0 post ∧ (s.base.th 0).pc = .getRel 0 .rel ∧ s.base.created = 1 := by
+  obtain ⟨sa, hsa, hpa⟩ := runCheckT_run (outside := false) (s0 := initT [[.useOk, .useOk]] 1 5)
+    (ls := runs 0 11)
+    (p := fun sa => decide ((sa.base.th 0).pc = .relAppend 0) && decide (sa.pend 0 = .none) && decide (sa.clock = 0) &&
+      (match stepT false sa (.run 0) with
+       | some sb => checkAlong false sb (fun s1 => decide (0 ∈ s1.base.free)) (runs 0 2 ++ [.tick 3] ++ runs 0 2)
+       | none => false)) (by decide)
+  simp only [Bool.and_eq_true, decide_eq_true_eq] at hpa
+  obtain ⟨⟨⟨h1, h2⟩, h3⟩, h4⟩ := hpa
+  cases hsb : stepT false sa (.run 0) with
+  | none => simp [hsb] at h4
+  | some sb =>
+    simp only [hsb] at h4
+    have hfs := freeSince_of_check hsa h1 h2 hsb h4
+    obtain ⟨s0, hr0, hp0⟩ := runCheckT_run (outside := false) (s0 := initT [[.useOk, .useOk]] 1 5)
+      (ls := runs 0 11 ++ .run 0 :: (runs 0 2 ++ [.tick 3] ++ runs 0 2))
+      (p := fun s0 => decide ((s0.base.th 0).pc = .getLoop .rel) && decide (s0.pend 0 = .none) && decide (0 ∈ s0.base.free) &&
+        decide (s0.now 0 - 0 ≤ 5) && checkAlong false s0 (fun s1 => decide (s1.base.lock = some 0)) (runs 0 3) &&
+        runCheckT false s0 (runs 0 3) (fun s => decide ((s.base.th 0).pc = .getRel 0 .rel) && decide (s.base.created = 1)))
+      (by decide)
+    simp only [Bool.and_eq_true, decide_eq_true_eq] at hp0
+    obtain ⟨⟨⟨⟨⟨g1, g2⟩, g3⟩, g4⟩, g5⟩, g6⟩ := hp0
+    obtain ⟨s, hr, hp⟩ := runCheckT_run g6
+    simp only [Bool.and_eq_true, decide_eq_true_eq] at hp
+    refine ⟨_, s0, runs 0 3, s, hr0, g1, g2, g3, ?_, g4, hr, ?_, hp.1, hp.2⟩
+    · rw [h3] at hfs
+      exact hfs.mono (fun s1 h => by simpa using h)
+    · intro p1 p2 s1 e hr1
+      simpa using checkAlong_spec g5 p1 p2 s1 e hr1
+
+/-- the schedule of `C09_conc_stamp_outside_lock_counterexample`: `get₀` and `work₀` (9 micro-steps), the clock advances
+by 10, `release₀` up to and including the exit from the `with` block (4), `get₁` up to the idle test (4) -/
+def schedStampOutside : List TLabel := runs 0 9 ++ [.tick 10] ++ runs 0 4 ++ runs 1 4
+
+/-- C09, overlapping callers (d): the lock hold matters.  In the variant `releaseStampOutsideLock` (`outside = true`:
+`release` leaves its `with self._lock` block before it writes `obj._last_used`) claim (a) FAILS.  Witness: timeout 5,
+two callers; thread 0 checks connection 0 out at time 0 (stamp 0), its call lasts until time 10, it appends the
+connection to `_free_objs` at time 10 and releases the lock; before it writes the stamp, thread 1 runs `get`
+(`now = 10`), pops connection 0 and finds `10 - 0 > 5`: it is about to close a connection that was handed back at
+this very instant — the only `append` of connection 0 happened at `t0 = 10` and `now - t0 = 0`. -/
+theorem C09_conc_stamp_outside_lock_counterexample :
+    ∃ ls s, runT true (initT [[.useOk], [.useOk]] 2 5) ls = some s ∧
+      (s.base.th 1).pc = .getTest 0 .rel ∧ s.pend 1 = .none ∧ 5 < s.now 1 - s.lastUsed 0 ∧
+      (∃ s', stepT true s (.run 1) = some s' ∧ s'.base.closedCnt 0 = s.base.closedCnt 0 + 1) ∧
+      ¬ ∃ t0, FreeSince true (initT [[.useOk], [.useOk]] 2 5) ls 0 t0
+                (fun s1 => 0 ∈ s1.base.free ∨ (s1.base.th 1).pc = .getTest 0 .rel) ∧ 5 < s.now 1 - t0 := by
+  obtain ⟨s, hr, hp⟩ := runCheckT_run (outside := true) (s0 := initT [[.useOk], [.useOk]] 2 5)
+    (ls := schedStampOutside)
+    (p := fun s => decide ((s.base.th 1).pc = .getTest 0 .rel) && decide (s.pend 1 = .none) &&
+      decide (5 < s.now 1 - s.lastUsed 0) && decide (s.idleTimeout = 5) &&
+      (appendTimes true (initT [[.useOk], [.useOk]] 2 5) 0 schedStampOutside).all fun t0 => !decide (5 < s.now 1 - t0))
+    (by decide)
+  simp only [Bool.and_eq_true, decide_eq_true_eq, List.all_eq_true, Bool.not_eq_eq_eq_not, Bool.not_true,
+    decide_eq_false_iff_not] at hp
+  obtain ⟨⟨⟨⟨h1, h2⟩, h3⟩, h4⟩, h5⟩ := hp
+  refine ⟨_, s, hr, h1, h2, h3, ?_, ?_⟩
+  · obtain ⟨s', g1, _, g3, _⟩ := (getTest_stepT (outside := true) h1 h2).1 (by rw [h4]; exact h3)
+    exact ⟨s', g1, g3⟩
+  · rintro ⟨t0, hfs, hlt⟩
+    exact h5 t0 (appendTimes_of_freeSince hfs) hlt
+
+/-- the events of the counterexample run, in the form recorded on the real pool -/
+example : runEventsT true (initT [[.useOk], [.useOk]] 2 5) (runs 0 9 ++ [.tick 10] ++ runs 0 4 ++ runs 1 5 ++ runs 0 1) =
+    ["acq 0", "clock 0", "len-free 0", "len-used 0", "create 0", "append-used 0", "stamp 0 0", "rel 0", "work 0",
+     "tick 10", "acq 0", "remove-used 0", "append-free 0", "rel 0",
+     "acq 1", "clock 10", "len-free 1", "popleft 0", "after_remove 0", "clock 10", "stamp 0 10"] := by decide
+
+/-- (d), literally: the statement of `C09_conc_expired_only_if_idle_long` with the variant's step relation is false -/
+theorem C09_conc_stamp_outside_lock_breaks_claim :
+    ¬ (∀ (programs : List Program) (maxSize idleTimeout : Nat) (ls : List TLabel) (s : TState) (t : Tid) (o : Obj) (f : Fin),
+        runT true (initT programs maxSize idleTimeout) ls = some s → (s.base.th t).pc = .getTest o f →
+        idleTimeout < s.now t - s.lastUsed o →
+        ∃ t0, FreeSince true (initT programs maxSize idleTimeout) ls o t0
+                (fun s1 => o ∈ s1.base.free ∨ (s1.base.th t).pc = .getTest o f) ∧ idleTimeout < s.now t - t0) := by
+  intro hall
+  obtain ⟨ls, s, hr, h1, _, h3, _, h5⟩ := C09_conc_stamp_outside_lock_counterexample
+  exact h5 (hall _ _ _ ls s 1 0 .rel hr h1 h3)
+
+/-- non-vacuity of the contrast: on the SAME schedule pool.py's model (stamp inside the lock hold) does not get
+there — thread 1 cannot take the lock before the stamp is written, and then finds the connection fresh. -/
+example : runEventsT false (initT [[.useOk], [.useOk]] 2 5) (runs 0 9 ++ [.tick 10] ++ runs 0 5 ++ runs 1 6) =
+    ["acq 0", "clock 0", "len-free 0", "len-used 0", "create 0", "append-used 0", "stamp 0 0", "rel 0", "work 0",
+     "tick 10", "acq 0", "remove-used 0", "append-free 0", "clock 10", "stamp 0 10", "rel 0",
+     "acq 1", "clock 10", "len-free 1", "popleft 0", "append-used 0", "stamp 0 10"] := by decide
+
+end PoolConcT
